@@ -52,6 +52,7 @@ structure Store (L α : Type) where
 structure Table (L α : Type) where
   index : List L
   cols : List (String × List α)
+  deriving DecidableEq, Repr
 
 /-- `x.startswith('_')`. -/
 def isInternal (s : String) : Bool :=
